@@ -3,7 +3,7 @@ import SleapVerif.Model.Arch
 import SleapVerif.Gen.TranslatedArch
 /-! Driver for C14.
 
-`model fam variant filters p q maxStride bos stem cpb middle upInterp inCh <nh> (os ch)* <nc> (h w)*`
+`model fam variant filters p q maxStride bos stem cpb middle upInterp inCh fixMid fixWrap <nh> (os ch)* <nc> (h w)*`
   → `construct-raise <err>` | `built L <labels> O <dec out> I <head in> | <last call>` with
     `<last call>` = `fwd-raise <err>` | `ok G <n> (label ch h w)* H <n> (ch h w)*`
   (the calls are a history on one module: first call fresh pools, later calls stale pools).
@@ -35,10 +35,12 @@ def pCfg : P (Cfg × List (Nat × Nat)) := do
     | _ => failure
   let variant ← nat; let filters ← nat; let p ← nat; let q ← nat; let ms ← nat; let bos ← nat
   let stem ← nat; let cpb ← nat; let mid ← bool; let upi ← bool; let inCh ← nat
+  let fixMid ← bool; let fixWrap ← bool
   let heads ← listOf (do let os ← nat; let ch ← nat; pure ({ os := os, ch := ch } : Head))
   let calls ← listOf (do let h ← nat; let w ← nat; pure (h, w))
   pure ({ fam := fam, variant := variant, filters := filters, rate := ⟨p, q⟩, maxStride := ms, bos := bos,
-          stem := stem, cpb := cpb, middle := mid, upInterp := upi, inCh := inCh, heads := heads }, calls)
+          stem := stem, cpb := cpb, middle := mid, upInterp := upi, inCh := inCh, heads := heads,
+          fixMid := fixMid, fixWrap := fixWrap }, calls)
 
 def handle (line : String) : String :=
   match tokens line with
